@@ -1,0 +1,83 @@
+package yaml
+
+import (
+	"bytes"
+	"errors"
+	"fmt"
+	"io"
+
+	"gopkg.in/yaml.v3"
+)
+
+// DecodeStrict decodes the YAML document held by `reader` into `into` and
+// rejects what the yaml decoder would silently ignore: keys that `into` does
+// not know, null keys, null list entries and additional documents.
+func DecodeStrict(reader io.Reader, into any) error {
+	content, err := io.ReadAll(reader)
+	if err != nil {
+		return err
+	}
+
+	// shape of the input: a single document, without the constructs that the
+	// decoder skips before it has a chance to check them.
+	nodeDecoder := yaml.NewDecoder(bytes.NewReader(content))
+
+	var document yaml.Node
+	if err := nodeDecoder.Decode(&document); err != nil {
+		return err
+	}
+
+	var additionalDocument yaml.Node
+	if err := nodeDecoder.Decode(&additionalDocument); !errors.Is(err, io.EOF) {
+		if err != nil {
+			return err
+		}
+
+		return fmt.Errorf("line %d: unexpected additional YAML document", additionalDocument.Line)
+	}
+
+	if err := checkDocumentShape(&document); err != nil {
+		return err
+	}
+
+	decoder := yaml.NewDecoder(bytes.NewReader(content))
+	decoder.KnownFields(true)
+
+	return decoder.Decode(into)
+}
+
+func isNullNode(node *yaml.Node) bool {
+	return node.Kind == yaml.ScalarNode && node.Tag == "!!null"
+}
+
+func checkDocumentShape(node *yaml.Node) error {
+	switch node.Kind {
+	case yaml.DocumentNode:
+		if len(node.Content) == 0 || isNullNode(node.Content[0]) {
+			return fmt.Errorf("line %d: empty document", node.Line)
+		}
+	case yaml.MappingNode:
+		for i := 0; i+1 < len(node.Content); i += 2 {
+			key := node.Content[i]
+			if key.Kind != yaml.ScalarNode || isNullNode(key) {
+				return fmt.Errorf("line %d: keys must be strings", key.Line)
+			}
+		}
+	case yaml.SequenceNode:
+		for _, item := range node.Content {
+			if isNullNode(item) {
+				return fmt.Errorf("line %d: empty list entry", item.Line)
+			}
+		}
+	case yaml.ScalarNode, yaml.AliasNode:
+		return nil
+	}
+
+	for _, child := range node.Content {
+		if err := checkDocumentShape(child); err != nil {
+			return err
+		}
+	}
+
+	return nil
+}
